@@ -6,6 +6,7 @@ import (
 	"fmt"
 	"go/token"
 	"go/types"
+	"sort"
 	"strings"
 
 	"golang.org/x/tools/go/ssa"
@@ -22,6 +23,7 @@ func checkC02(p *Prog, r *Report) {
 	ruleC02Safe(p, a, r)
 	ruleC02And(p, a, r)
 	ruleC02Mode(p, a, r)
+	ruleC02NeedsEscape(p, a, r)
 	r.Begin("R-C02-TABLE", "the escape filter replaces & < > \" ' by entities, & first (same table rule as R-C17-ESC)", 4)
 	if esc := a.FilterFuncs["escape"]; esc != nil {
 		checkReplaceTable(p, r, esc, "escape", map[string]bool{"&": true, "<": true, ">": true, "\"": true, "'": true}, func(pr replPair) string {
@@ -824,5 +826,96 @@ func ruleC02Mode(p *Prog, a *Anchors, r *Report) {
 		}
 	} else {
 		r.Unk("(*tagAutoescapeNode).Execute", "-", "anchor unresolved")
+	}
+}
+
+// ruleC02NeedsEscape: R-C02-SINK accepts `!value.needsEscape()` as "this text cannot carry caller data". That is only
+// sound while the predicate knows every way in which Value.String() obtains text from the underlying value: the two
+// functions are siblings and must agree. Every Stringer assertion by which String() gets text must be made by the
+// predicate on the same operand, and the predicate must answer true for string kinds.
+func ruleC02NeedsEscape(p *Prog, a *Anchors, r *Report) {
+	r.Begin("R-C02-NEEDS", "the predicate that exempts a value from escaping agrees with Value.String(): it answers true for string kinds and for every Stringer assertion through which String() takes text from the value", 2)
+	str := p.Method("Value", "String")
+	var pred *ssa.Function
+	// the predicate: the bool method of *Value that the sink rule's opt-out names
+	for _, f := range p.Methods(a.Value) {
+		if f.Name() == "needsEscape" {
+			pred = f
+		}
+	}
+	if str == nil {
+		r.Unk("anchor", "-", "anchor unresolved: (*Value).String")
+		return
+	}
+	if pred == nil {
+		r.Trivial("no-predicate", "-", "no needsEscape predicate: the sink rule then has no such opt-out")
+		return
+	}
+	norm := func(f *ssa.Function, v ssa.Value) string {
+		k := p.VN(v)
+		if len(f.Params) > 0 {
+			k = strings.ReplaceAll(k, "param:"+f.Params[0].Name(), "param:#recv")
+		}
+		return k
+	}
+	stringerAsserts := func(f *ssa.Function) map[string]ssa.Instruction {
+		out := map[string]ssa.Instruction{}
+		for _, g := range clusterOf(p, f, 0) {
+			for _, b := range g.Blocks {
+				for _, in := range b.Instrs {
+					ta, ok := in.(*ssa.TypeAssert)
+					if !ok {
+						continue
+					}
+					it, ok := ta.AssertedType.Underlying().(*types.Interface)
+					if !ok {
+						continue
+					}
+					hasString := false
+					for i := 0; i < it.NumMethods(); i++ {
+						if it.Method(i).Name() == "String" || it.Method(i).Name() == "Error" {
+							hasString = true
+						}
+					}
+					if hasString {
+						out[norm(f, ta.X)] = in
+					}
+				}
+			}
+		}
+		return out
+	}
+	inStr, inPred := stringerAsserts(str), stringerAsserts(pred)
+	keys := make([]string, 0, len(inStr))
+	for k := range inStr {
+		keys = append(keys, k)
+	}
+	sort.Strings(keys)
+	for _, k := range keys {
+		key := "String:stringer " + k
+		if _, ok := inPred[k]; ok {
+			r.OK(key, p.InstrPos(inStr[k]), "needsEscape makes the same assertion on the same operand")
+		} else {
+			r.Bad(key, p.InstrPos(inStr[k]), "Value.String() takes text from a String()/Error() method found by asserting %s, but needsEscape() does not make that assertion: such a value is printed without escaping", k)
+		}
+	}
+	// string kinds
+	strKind := false
+	for _, b := range pred.Blocks {
+		for _, in := range b.Instrs {
+			if c, ok := in.(*ssa.Call); ok && c.Common().StaticCallee() != nil && c.Common().StaticCallee().Name() == "IsString" {
+				strKind = true
+			}
+			if bo, ok := in.(*ssa.BinOp); ok {
+				if k, isK := kindConst(bo.Y); isK && k == kString {
+					strKind = true
+				}
+			}
+		}
+	}
+	if strKind {
+		r.OK("needsEscape:string-kind", p.Pos(pred.Pos()), "tests the string kind")
+	} else {
+		r.Bad("needsEscape:string-kind", p.Pos(pred.Pos()), "needsEscape() no longer tests for string kinds: plain strings would be exempt from escaping")
 	}
 }
